@@ -158,7 +158,7 @@ def run_real(lab: Lab, history) -> list:
             payload = {'tree': str(tree), 'hooks': [[p, conf_spec(ci)] for p, ci in r['hooks']], 'imports': r['imports'],
                        'watch': T.MODULES}
             if r['kind'] == 'conc':
-                payload['conc'] = {'mods': r['imports'], 'point': r['point']}
+                payload['conc'] = {'mods': r['imports'], 'point': r['point'], 'order': r.get('order', 'nested')}
             res = lab.run(payload)
             res['versions'] = dict(ver)
             res['listing'] = [f for f in res['listing'] if f['mod'] in T.MODULES]
@@ -195,7 +195,8 @@ def property_failures(lab: Lab, history, real) -> list:
                                                    'injected_names': f['names'],
                                                    'what': 'transformed code under the stock name' if f['names'] else 'untransformed code under a beartype marker'}))
         if res.get('patch_left'):
-            fails.append((i, 'mix', '-', {'what': 'importlib._bootstrap_external.cache_from_source still patched at the end of the run'}))
+            fails.append((i, 'patch-left', '-', {'what': 'importlib._bootstrap_external.cache_from_source still patched at the end of the run '
+                                                          '(every import has finished)'}))
     return fails
 
 
@@ -208,6 +209,13 @@ def sched_of(r: dict, res: dict | None) -> list:
     paused = True if res is None else res.get('paused', False)
     if not paused:
         return [0] * 5 + [1] * 5
+    if r.get('order') == 'overlap':
+        # A up to its first pause point, B up to ITS first pause point, A to the end, B to the end
+        b_hooked = conf_of(r, r['imports'][1]) is not None
+        ba, bb = (1 if a_hooked else 0), (1 if b_hooked else 0)
+        if res is not None and not res.get('paused_b', True):
+            bb = 5
+        return [0] * ba + [1] * bb + [0] * (5 - ba) + [1] * (5 - bb)
     if r['point'] == 'P1':
         before = 1 if a_hooked else 0          # patch set, file not yet named
     else:
@@ -341,6 +349,11 @@ def directed_concurrent() -> list:
             out.append([conc, seq([], ['pkg.ma', b])])
             out.append([seq([['pkg', 0], ['other', 0]], ['other.mc', 'pkg.mb']), conc])
             out.append([seq([], ['pkg.ma']), conc, seq([], ['pkg.ma'])])
+    # overlapping, NOT nested: A enters, B enters, A leaves, B leaves — then a later run sees what was left behind
+    for b, hooks in (('other.mc', [['pkg', 0], ['other', 0]]), ('pkg.mb', [['pkg', 0]]), ('other.mc', [['pkg', 0]])):
+        conc = {'kind': 'conc', 'hooks': hooks, 'edits': [], 'imports': ['pkg.ma', b], 'point': 'P1', 'order': 'overlap'}
+        out.append([conc, seq([], ['pkg.ma', b])])
+        out.append([conc, seq(hooks, ['pkg.ma', b])])
     return out
 
 
@@ -401,6 +414,8 @@ def canonical_key(history, fails) -> str:
     if conc:
         r = conc[0]
         b_hooked = conf_of(r, r['imports'][1]) is not None
+        if kind == 'patch-left':
+            return 'C16:concurrent:patch-still-installed-after-all-imports-finished'
         return f'C16:concurrent:{"hooked" if b_hooked else "unhooked"}-import-inside-patch-window'
     letters: dict = {}
     toks = []
